@@ -36,6 +36,10 @@ def shapes():
         "flt1e-9": lambda: Node("LiteralFloat", value=1e-9, dtype="DataType.REAL"),
         "flt1+1e-6": lambda: Node("LiteralFloat", value=1.000001, dtype="DataType.REAL"),
         "flt-1-1e-6": lambda: Node("LiteralFloat", value=-1.000001, dtype="DataType.REAL"),
+        # complex literal values (UFL ComplexValue becomes LiteralFloat(complex)): recognisers must look at the whole number
+        "cplx1+.5j": lambda: Node("LiteralFloat", value=complex(1.0, 0.5), dtype="DataType.SCALAR"),
+        "cplx.5j": lambda: Node("LiteralFloat", value=complex(0.0, 0.5), dtype="DataType.SCALAR"),
+        "cplx-1+2j": lambda: Node("LiteralFloat", value=complex(-1.0, 2.0), dtype="DataType.SCALAR"),
         "sym": lambda: Node("Symbol", name="x", dtype="DataType.REAL"),
         "negsym": lambda: Node("Neg", arg=Node("Symbol", name="y", dtype="DataType.REAL"), dtype="DataType.REAL"),
         "py0": lambda: 0,
@@ -68,7 +72,7 @@ def _sym2(n):
 
 @rule(
     "ALG-IDENT",
-    ["C17"],
+    ["C17", "C09"],
     "every LExpr operator overload (__neg__/__add__/__radd__/__sub__/__rsub__/__mul__/__rmul__/"
     "__div__/__rdiv__ and their aliases), interpreted abstractly from source over all pairs of "
     "operand shapes, returns a tree algebraically equal (rational normal form) to the operation; "
@@ -152,7 +156,7 @@ def alg_ident(repo, res):
 
 @rule(
     "FOLD-HELPERS",
-    ["C17"],
+    ["C17", "C09"],
     "float_product drops exactly the unit factors and multiplies the rest (1.0 when empty); "
     "MultiIndex.global_index is the row-major flattening sum_i idx_i * prod(sizes[i+1:]); the UFL "
     "operator table maps Sum/Product/Division to +, *, /",
